@@ -7,50 +7,57 @@
 (* solve, optionally followed by a _compute_totals frame that may contain  *)
 (* a (not recorded) root solve - approximated totals] or [mode "model":    *)
 (* <= MaxDrv run_model calls];  a root solve = 1..MaxSol iterations of the *)
-(* root nonlinear solver, each running subsystem s1 (a group with its own  *)
-(* solver, 1..MaxSub iterations) and s2 (a component) and then a           *)
-(* _run_apply frame;  Problem.record between runs.                         *)
+(* root nonlinear solver (one under _compute_totals), each running         *)
+(* subsystem s1 (a group with its own solver; 1..MaxSub iterations, the    *)
+(* number fixed per run) and s2 (a component) and then a _run_apply frame; *)
+(* Problem.record between runs.                                            *)
 (* Iteration numbers are rendered through Nums, a strictly increasing      *)
 (* sequence chosen in Init from NumSeqs (e.g. 0,1,10,11,12,100,...): a     *)
 (* run whose counters pass through 1 and 10 contains these cases, so the   *)
 (* decimal-prefix situation "|1" vs "|10" occurs at every level without    *)
 (* enumerating ten iterations.                                             *)
-(* The recorder is attached to a subset of the seven requesters chosen in  *)
-(* Init from AttachSets.  Properties are evaluated whenever the stack is   *)
+(* The recorder is attached to a subset of the seven requesters; Init      *)
+(* takes (attachment, mode, numbering) from Configs.  Properties are evaluated whenever the stack is   *)
 (* empty (a reader opens the file between runs).                           *)
 (***************************************************************************)
-EXTENDS Recorder
+EXTENDS Recorder, Integers
 
 CONSTANTS MaxDrv, MaxSol, MaxSub, MaxProb,
-          AttachSets,     \* set of sets of requester labels
-          NumSeqs,        \* set of strictly increasing sequences of naturals (length >= MaxDrv * MaxSol + 1)
-          Modes,          \* subset of {"driver", "model"}
+          Configs,        \* set of [att: set of requester labels, mode: "driver" | "model", nums: strictly increasing
+                          \* sequence of naturals of length >= MaxDrv * MaxSol + 1]
           WinAdj          \* 0 = the code; 1 / -1: the deliberately broken window (must be refuted)
 
 Reqs == {"problem", "driver", "sys:", "sys:s1", "sys:s2", "nl:", "nl:s1"}
 
-\* values for the configuration files (cfg files cannot hold tuples): CONSTANT NumSeqs <- NumSeqsDef ...
-NumSeqsDef == {<<0, 1, 2, 3, 4, 5, 6, 7>>,                    \* plain counting
-               <<1, 10, 11, 12, 100, 101, 110, 111>>,         \* 1 | 10..12 | 100.. : every decimal-prefix collision
-               <<8, 9, 10, 11, 19, 20, 99, 100>>}             \* 9 -> 10, 99 -> 100
-AttachAll == {Reqs}
-AttachQuick == {Reqs, {"driver", "sys:s1", "nl:s1"}, {"driver", "nl:", "sys:s2"}, {"sys:", "nl:"}, {"problem", "nl:s1"},
-                {"driver"}, {"sys:s1"}, {"driver", "sys:", "sys:s1", "sys:s2"}}
-AttachEvery == SUBSET Reqs \ {{}}
+\* values for the configuration files (cfg files cannot hold tuples): CONSTANT Configs <- ConfigsQuick
+MinusOne == -1                                        \* WinAdj <- MinusOne (cfg files have no negative numbers)
+Plain == <<0, 1, 2, 3, 4, 5, 6, 7>>
+Dec == <<1, 10, 11, 12, 100, 101, 110, 111>>          \* 1 | 10..12 | 100.. : every decimal-prefix collision
+Nine == <<8, 9, 10, 11, 19, 20, 99, 100>>             \* 9 -> 10, 99 -> 100
+Cfg(a, m, n) == [att |-> a, mode |-> m, nums |-> n]
+ConfigsQuick == {Cfg(Reqs, "driver", Dec), Cfg(Reqs, "model", Nine),
+                 Cfg({"driver", "sys:s1", "nl:s1"}, "driver", Dec),        \* root and its solver not recorded
+                 Cfg({"driver", "nl:", "sys:s2"}, "driver", Nine),
+                 Cfg({"sys:", "nl:", "problem"}, "model", Dec),
+                 Cfg({"problem", "nl:s1", "sys:s2"}, "driver", Plain),
+                 Cfg({"driver", "sys:", "sys:s1", "sys:s2"}, "driver", Dec),
+                 Cfg({"nl:", "nl:s1"}, "model", Dec)}
+ConfigsAll == {Cfg(a, "driver", Dec) : a \in SUBSET Reqs \ {{}}}
+              \cup {Cfg(a, "model", n) : a \in {Reqs, {"sys:", "nl:s1"}, {"nl:", "sys:s1", "problem"}}, n \in {Plain, Dec, Nine}}
+              \cup {Cfg(a, "driver", n) : a \in {Reqs, {"driver", "sys:s1"}, {"driver", "nl:s1", "sys:s2"}}, n \in {Plain, Nine}}
 
 VARIABLES pcs,      \* parallel to stack: progress of each open frame
-          mode, nums, nprob
-vars == <<rvars, pcs, mode, nums, nprob>>
+          mode, nums, nsub, nprob
+vars == <<rvars, pcs, mode, nums, nsub, nprob>>
 
 Num(k) == nums[k + 1]
 DriverName == "Driver"
 RootNL == "NonlinearBlockGS"
 SubNL == "NewtonSolver"
 
-Init == /\ \E a \in AttachSets : RInit(a, Reqs)
+Init == /\ \E c \in Configs : RInit(c.att, Reqs) /\ mode = c.mode /\ nums = c.nums
         /\ pcs = <<>>
-        /\ mode \in Modes
-        /\ nums \in NumSeqs
+        /\ nsub \in 1..MaxSub          \* iterations of the sub-solver per solve of s1 (fixed for the run)
         /\ nprob = 0
 
 Top == Last(stack)
@@ -59,10 +66,10 @@ SetTopPc(v) == [pcs EXCEPT ![Len(pcs)] = v]
 \* push a child: the parent's progress becomes ppc, the child starts at 0
 Push(name, it, req, ppc) == /\ Enter(name, it, req)
                             /\ pcs' = Append(IF Len(pcs) = 0 THEN pcs ELSE SetTopPc(ppc), 0)
-                            /\ UNCHANGED <<mode, nums, nprob>>
+                            /\ UNCHANGED <<mode, nums, nsub, nprob>>
 Pop == /\ Exit
        /\ pcs' = SubSeq(pcs, 1, Len(pcs) - 1)
-       /\ UNCHANGED <<mode, nums, nprob>>
+       /\ UNCHANGED <<mode, nums, nsub, nprob>>
 
 \* ---- top level
 DriverBegin == /\ stack = <<>> /\ mode = "driver" /\ ictr["driver"] < MaxDrv
@@ -72,7 +79,7 @@ ModelBegin == /\ stack = <<>> /\ mode = "model" /\ ictr["sys:"] < MaxDrv
 ProblemRecord == /\ stack = <<>> /\ nprob < MaxProb
                  /\ RecordProblem("final" \o ToString(nprob))
                  /\ nprob' = nprob + 1
-                 /\ UNCHANGED <<pcs, mode, nums>>
+                 /\ UNCHANGED <<pcs, mode, nums, nsub>>
 \* ---- inside a driver iteration: root solve, then optionally _compute_totals, then the end of the iteration
 DriverIter == /\ Len(stack) > 0 /\ Top.r = "driver"
               /\ \/ TopPc = 0 /\ Push("root._solve_nonlinear", Num(ictr["sys:"]), "sys:", 1)
@@ -83,7 +90,7 @@ Totals == /\ Len(stack) > 0 /\ Top.n = "_compute_totals"
              \/ Pop
 \* ---- a group solve: 1..max iterations of its nonlinear solver
 RootSolve == /\ Len(stack) > 0 /\ Top.r = "sys:"
-             /\ \/ TopPc < MaxSol /\ Push(RootNL, Num(TopPc), "nl:", TopPc + 1)
+             /\ \/ TopPc < (IF norec > 0 THEN 1 ELSE MaxSol) /\ Push(RootNL, Num(TopPc), "nl:", TopPc + 1)
                 \/ TopPc >= 1 /\ Pop
 RootIter == /\ Len(stack) > 0 /\ Top.r = "nl:"
             /\ \/ TopPc = 0 /\ Push("s1._solve_nonlinear", Num(ictr["sys:s1"]), "sys:s1", 1)
@@ -92,8 +99,8 @@ RootIter == /\ Len(stack) > 0 /\ Top.r = "nl:"
                \/ TopPc = 3 /\ Pop
 RunApply == Len(stack) > 0 /\ Top.n = "_run_apply" /\ Pop
 SubSolve == /\ Len(stack) > 0 /\ Top.r = "sys:s1"
-            /\ \/ TopPc < MaxSub /\ Push(SubNL, Num(TopPc), "nl:s1", TopPc + 1)
-               \/ TopPc >= 1 /\ Pop
+            /\ \/ TopPc < nsub /\ Push(SubNL, Num(TopPc), "nl:s1", TopPc + 1)
+               \/ TopPc = nsub /\ Pop
 SubIter == Len(stack) > 0 /\ Top.r = "nl:s1" /\ Pop
 Leaf == Len(stack) > 0 /\ Top.r = "sys:s2" /\ Pop
 
@@ -105,7 +112,7 @@ Quiescent == stack = <<>>
 TypeOK == /\ Len(pcs) = Len(stack) /\ Len(opened) = Len(stack) /\ norec \in 0..2
           /\ norec = Cardinality({k \in 1..Len(stack) : stack[k].n \in NoRecNames})
 CounterOK == CounterIsIndex(log) /\ CounterMonotone(log) /\ counter = Len(log)
-Unique == UniqueCoords(log)
+Unique == Quiescent => UniqueCoords(log)
 NoRecRule == \A i \in 1..Len(log) : log[i].req \in attached          \* and nothing is recorded under a norec frame:
 NoRecFrames == [][(Len(log') > Len(log)) => norec = 0]_vars
 Order == Quiescent => OrderIsExecution(log)
